@@ -694,7 +694,21 @@ class SInterp(object):
         if isinstance(o, TypeV) and o.name in ('list', 'dict', 'str', 'tuple') and getattr(o, 'getattr', None) is None:
             meth = getattr({'list': list, 'dict': dict, 'str': str, 'tuple': tuple}[o.name], attr, None)
             if meth is not None:
-                return lambda itp, a, k, attr=attr: itp.apply(itp.getattr_(a[0], attr), list(a[1:]), k)
+                def unbound(itp, a, k, attr=attr, meth=meth, tname=o.name):
+                    raw = '_' + tname
+                    if a and isinstance(a[0], Obj) and raw in a[0].attrs and tname in ('list', 'dict'):
+                        # list.append(self, x) inside a subclass of list: the primitive, on the object's own storage
+                        if attr == '__init__':
+                            a[0].attrs[raw] = [] if tname == 'list' else {}
+                            if len(a) > 1:
+                                (a[0].attrs[raw].extend if tname == 'list' else a[0].attrs[raw].update)(itp.iterate(a[1]) if tname == 'list' else a[1])
+                            return None
+                        try:
+                            return meth(a[0].attrs[raw], *a[1:], **k)
+                        except Exception as e:
+                            itp.pyerr(e)
+                    return itp.apply(itp.getattr_(a[0], attr), list(a[1:]), k)
+                return unbound
         if isinstance(o, TypeV):
             h = getattr(o, 'getattr', None)
             if h is not None:
